@@ -170,6 +170,8 @@ def build_script(rng, case, frames, topic):
     if pattern in ("hold", "unsub_busy") and valid_idx:
         k = 1 if pattern == "unsub_busy" else rng.randrange(1, min(3, len(valid_idx)) + 1)
         held = set(valid_idx[:1] if pattern == "unsub_busy" else rng.sample(valid_idx, k))
+        if pattern == "hold" and case.get("forced"):
+            held = set(valid_idx[:1])     # the FIRST delivery is held while the whole backlog builds up behind it
     if pattern == "herr":
         herr = [case["items"][j]["cid"] for j in valid_idx if rng.random() < 0.5]
     unsub_at = None
@@ -378,6 +380,7 @@ def run_program(ctx, prog, lab_id, ncases, stats, jcases, jmeta, thorough, stomp
         forced = [("stomp", 1, ("unsub_busy", 6)), ("stomp", 1, ("unsub_busy", 12)), ("stomp", 1, ("unsub_busy", 9)),
                   ("stomp", 1, ("unsub_busy", 14)), ("stomp", 1, ("unsub_busy", 30)), ("stomp", 1, ("unsub_busy", 40)),
                   ("nats", 1, ("unsub_busy", 80)), ("nats", 2, ("unsub_busy", 12)), ("nats", 1, ("plain", 90)),
+                  ("nats", 1, ("hold", 95)),      # backlog larger than the work queue behind a held handler: order must survive
                   ("stomp", 1, ("plain", 40))]
         for i in range(ncases):
             fn, sc, op = ops[i % len(ops)]
